@@ -29,7 +29,7 @@ func TestMain(m *testing.M) {
 }
 
 type Act struct {
-	K string `json:"k"` // deliver | dup | stray | cancel | late | start
+	K string `json:"k"` // deliver | dup | stray | cancel | late | start | dupnow | racecancel
 	J int    `json:"j"`
 }
 
@@ -78,7 +78,7 @@ func genCase(t *rapid.T) Case {
 	}
 	na := rapid.IntRange(0, 3*n+4).Draw(t, "nacts")
 	for i := 0; i < na; i++ {
-		k := rapid.SampledFrom([]string{"deliver", "deliver", "deliver", "deliver", "dup", "stray", "cancel", "late", "start"}).Draw(t, "k")
+		k := rapid.SampledFrom([]string{"deliver", "deliver", "deliver", "deliver", "dup", "stray", "cancel", "late", "start", "start", "dupnow", "racecancel"}).Draw(t, "k")
 		c.Acts = append(c.Acts, Act{K: k, J: rapid.IntRange(0, 255).Draw(t, "j")})
 	}
 	if !c.Datagram && c.Engine != "doh" {
@@ -296,6 +296,60 @@ func runCase(c Case, ctx *hx.Ctx) *hx.Failure {
 			}
 			lastDelivered = cl.idx
 			if f := deliver(cl); f != nil {
+				return f
+			}
+		case "dupnow", "racecancel":
+			// dupnow: the server sends the reply twice back to back; racecancel: the reply arrives at the very
+			// moment the caller gives up. Either the reply or (racecancel) the context error is a correct outcome;
+			// what matters is that nothing of it leaks into a later call.
+			if rt != nil || c.Engine == "reuse" {
+				continue
+			}
+			p := pendingCalls()
+			if len(p) == 0 {
+				continue
+			}
+			cl := p[a.J%len(p)]
+			s := w.Seen(cl.name)[0]
+			fc := w.Conn(s.Conn)
+			if fc == nil || fc.IsClosed() {
+				continue
+			}
+			r, _, err := w.Book.Reply(s.Conn, s.Wire, 0)
+			if err != nil {
+				continue
+			}
+			fr := fc.Frame(r)
+			extra = true
+			if a.K == "dupnow" {
+				fc.FeedChunks(append(append([]byte(nil), fr...), fr...), c.Chunks)
+				if c.Datagram {
+					fc.Feed(fr)
+				}
+			} else {
+				if a.J%2 == 0 {
+					cl.cancel()
+					fc.FeedChunks(fr, c.Chunks)
+				} else {
+					fc.FeedChunks(fr, c.Chunks)
+					cl.cancel()
+				}
+				cl.cancelled = true
+			}
+			cl.answered = true
+			cl.frame = fr
+			if !waitDone(cl, 10*time.Second) {
+				return hx.Failf("C01/hang-after-reply", "call %d did not return", cl.idx)
+			}
+			cl.ended = true
+			if cl.err == nil {
+				if f := judge(cl); f != nil {
+					return f
+				}
+			} else if a.K == "dupnow" {
+				return hx.Failf("C01/answered-call-failed", "call %d: %v", cl.idx, cl.err)
+			}
+			if f := stillPending("a doubled / racing reply"); f != nil {
 				return f
 			}
 		case "dup": // the server repeats a reply it already sent
